@@ -213,8 +213,8 @@ func templates() []*template {
 }
 
 func genTemplates(out *vc.Out, r *vc.Rand, thorough bool) {
-	exhaustLimit := 1300.0
-	samples := 250
+	exhaustLimit := 3100.0
+	samples := 700
 	if thorough {
 		exhaustLimit = 60000
 		samples = 3000
@@ -427,6 +427,6 @@ func generate(out *vc.Out, r *vc.Rand, thorough bool) {
 	if thorough {
 		genRandom(out, r.Fork(), 40000)
 	} else {
-		genRandom(out, r.Fork(), 2500)
+		genRandom(out, r.Fork(), 6000)
 	}
 }
